@@ -41,6 +41,18 @@ def lost_annotation(a, b, path=""):
     return None
 
 
+def odd_names(tree):
+    import re
+    if tree is None:
+        return False
+    for o in tree["opts"]:
+        if not re.fullmatch(r"[A-Za-z0-9_.-]+", o["n"] or ""):
+            return True
+        if any(isinstance(v, dict) and odd_names(v) for v in o["v"]):
+            return True
+    return False
+
+
 def find_opt(tree, path, name, nocase):
     sec = tree
     for oname, idx in path:
@@ -214,6 +226,7 @@ class C15:
         s.add("init", 1, 0, flags)
         s.add("init", 2, 0, flags)
         ip = s.add("parse_buf", 1, hx(text))
+        id1 = s.add("dump", 1)
         irt = s.add("roundtrip", 1, 2)
         idd = s.add("dump", 2)
         s.add("free", 1)
@@ -223,6 +236,8 @@ class C15:
         if not r.clean:
             return "die/%s" % r.death(), "roundtrip died: %s\n%s" % (r.death(), r.stderr.decode("latin-1")[:1200])
         printed = bytes.fromhex(t[irt]["text"]).decode("latin-1")
+        if t[irt]["rc"] != 0 and odd_names(dump_to_plain(t[id1]["tree"])):
+            return None       # a free-form key that is not identifier-like has no printable form (outside the domain, see C05)
         if t[irt]["rc"] != 0:
             if "*/" in val:
                 return "annotation-print-unparsable/comment-terminator-in-annotation", "annotation %r printed as %r does not parse" % (val, printed)
